@@ -8,7 +8,7 @@ inner_join's, so inner ⊆ left ⊆ full holds by construction (C10.d).
 """
 from __future__ import annotations
 
-from ..joins import JoinFacts
+from ..joinsx import JoinModel
 from . import joinrules as jr
 from . import nameres
 
@@ -32,11 +32,11 @@ def run(ctx) -> None:
     facts = {}
 
     def inner():
-        facts["inner_join"] = JoinFacts(ctx.prog, "inner_join")
+        facts["inner_join"] = JoinModel(ctx.prog, "inner_join")
     ctx.section("inner_join-facts", inner)
     for v in ("join", "full_join"):
         def one(v=v):
-            jf = JoinFacts(ctx.prog, v)
+            jf = JoinModel(ctx.prog, v)
             facts[v] = jf
             jr.left_complete(ctx, jf)
             jr.padding(ctx, jf)
